@@ -21,6 +21,7 @@ def check(run):
     run.guard(CL.single_clip, funcs, 'C02', (0,) if quick else (0, 1), 7, True, not quick, (1, 7) if quick else tuple(range(9)))
     run.guard(BR.check_normalisation, funcs, 'C02')
     run.guard(GR.cuboid, funcs, 'C02')
+    run.guard(GR.build_loop, funcs, 'C02')          # no candidate within the safety radius is skipped (skipped neighbours make cells overlap)
     run.assume('f64 read as exact reals; all three normal components non-zero; no box corner inside the float error band of the plane')
     return run.finish(LEVEL, EXPLANATION, trusted=['rustc -Zunpretty=mir', 'z3 5.1.0 / 4.8.12 (portfolio on the identities)', 'glam / std models of mirsym'])
 
